@@ -18,7 +18,9 @@ CONSTANTS Req,            \* client requests (= their tokens); BackendOf gives t
           Backend,
           BackendOf,      \* [Req -> Backend]
           SharedResponseKey, \* deviation: responses are keyed by something shared (not the request ID)
-          ShortRetention    \* deviation: the retention period is shorter than the time a client may wait
+          ShortRetention,   \* deviation: the retention period is shorter than the time a client may wait
+          ResponseStartTimeUnset \* TRUE = the code as it is: newStoredResponse never sets StartTime, so every stored
+                            \* response looks older than two minutes to the cron handler, however fresh it is
 
 None == "none"
 \* routing used by the model-checking configurations: r3 goes to backend b2, everything else to b1
@@ -35,13 +37,15 @@ VARIABLES cst,        \* [Req -> "new" | "waiting" | "done" | "timeout"]
           seen        \* [Backend -> the backend's agent was seen within the last hour (backendTracker.LastSeen)]
 avars == <<cst, stored, completed, response, listed, fetched, resp, got, old, seen>>
 
-Init == /\ cst = [r \in Req |-> "new"] /\ stored = [r \in Req |-> FALSE] /\ completed = [r \in Req |-> FALSE]
+InitWith(live) ==
+        /\ cst = [r \in Req |-> "new"] /\ stored = [r \in Req |-> FALSE] /\ completed = [r \in Req |-> FALSE]
         /\ response = [r \in Req |-> None] /\ listed = [r \in Req |-> FALSE] /\ fetched = [r \in Req |-> None]
         /\ resp = [r \in Req |-> "none"] /\ got = [r \in Req |-> None]
-        /\ old = {} /\ seen = [b \in Backend |-> FALSE]
+        /\ old = {} /\ seen = [b \in Backend |-> live]
+Init == InitWith(FALSE)
 
-ClientStore(r) ==        \* proxyHandler: LookupBackend, serialise, WriteRequest
-  /\ cst[r] = "new"
+ClientStore(r) ==        \* proxyHandler: LookupBackend (only backends seen recently are candidates), serialise, WriteRequest
+  /\ cst[r] = "new" /\ seen[BackendOf[r]]
   /\ stored' = [stored EXCEPT ![r] = TRUE] /\ cst' = [cst EXCEPT ![r] = "waiting"]
   /\ UNCHANGED <<completed, response, listed, fetched, resp, got, old, seen>>
 
@@ -50,6 +54,10 @@ AgentList(b, ids) ==     \* pendingHandler: the uncompleted requests of backend 
   /\ listed' = [r \in Req |-> listed[r] \/ r \in ids]
   /\ seen' = [seen EXCEPT ![b] = TRUE]            \* registerBackendAsSeen
   /\ UNCHANGED <<cst, stored, completed, response, fetched, resp, got, old>>
+
+AgentListEmpty(b) ==     \* a list call that finds nothing still registers the backend as seen
+  /\ seen' = [seen EXCEPT ![b] = TRUE]
+  /\ UNCHANGED <<cst, stored, completed, response, listed, fetched, resp, got, old>>
 
 AgentFetch(b, r) ==      \* requestHandler: ReadRequest(b, id) - only under the validated backend
   /\ stored[r] /\ BackendOf[r] = b
@@ -85,18 +93,20 @@ Ages(r) ==               \* two minutes pass.  A client waits at most 30 s (resp
   /\ r \notin old /\ (ShortRetention \/ cst[r] \in {"done", "timeout"})   \* that old belongs to an exchange that is over
   /\ old' = old \cup {r}
   /\ UNCHANGED <<cst, stored, completed, response, listed, fetched, resp, got, seen>>
-GoesQuiet(b) ==          \* the backend's agent has not listed for an hour
-  /\ seen[b] /\ seen' = [seen EXCEPT ![b] = FALSE]
+GoesQuiet(b) ==          \* the backend's agent has not listed for an hour (a request is only routed to a backend seen
+  /\ seen[b] /\ \A r \in Req : BackendOf[r] = b => cst[r] # "waiting"   \* within minutes, and a client waits 30 s)
+  /\ seen' = [seen EXCEPT ![b] = FALSE]
   /\ UNCHANGED <<cst, stored, completed, response, listed, fetched, resp, got, old>>
-Cron ==                  \* request entities: only of recently seen backends (listRecentBackends); responses: all old ones
-  /\ stored' = [r \in Req |-> stored[r] /\ ~(r \in old /\ seen[BackendOf[r]])]
-  /\ response' = [r \in Req |-> IF r \in old THEN None ELSE response[r]]
+Cron ==                  \* DeleteOldBackends: a backend quiet for an hour goes with ALL of its requests (DeleteBackend);
+                         \* DeleteOldRequests: old requests of the remaining backends, old responses
+  /\ stored' = [r \in Req |-> stored[r] /\ seen[BackendOf[r]] /\ r \notin old]
+  /\ response' = [r \in Req |-> IF r \in old \/ ResponseStartTimeUnset THEN None ELSE response[r]]
   /\ UNCHANGED <<cst, completed, listed, fetched, resp, got, old, seen>>
 
 Next == \/ \E r \in Req : ClientStore(r) \/ WriteResponse(r) \/ MarkCompleted(r) \/ ClientPoll(r) \/ ClientTimeout(r)
         \/ \E b \in Backend : \E r \in Req : AgentFetch(b, r) \/ RespondStart(b, r)
         \/ \E b \in Backend : \E ids \in SUBSET Req : AgentList(b, ids)
-        \/ Cron \/ (\E r \in Req : Ages(r)) \/ (\E b \in Backend : GoesQuiet(b))
+        \/ Cron \/ (\E r \in Req : Ages(r)) \/ (\E b \in Backend : GoesQuiet(b) \/ AgentListEmpty(b))
 Spec == Init /\ [][Next]_avars
         /\ \A r \in Req : WF_avars(WriteResponse(r)) /\ WF_avars(MarkCompleted(r)) /\ WF_avars(ClientPoll(r))
 
@@ -111,9 +121,13 @@ OwnBackendOnly == \A r \in Req : listed[r] => cst[r] # "new"
 \* retention never touches an exchange that is still going on: the request and the response of a waiting
 \* client survive every run of the cron handler (30 s of waiting against two minutes of retention)
 CronSparesWaiting == [][\A r \in Req : cst[r] = "waiting" => ((stored[r] => stored'[r]) /\ (response[r] # None => response'[r] # None))]_avars
-\* what retention leaves behind: requests of a backend whose agent has gone quiet are never collected by
-\* DeleteOldRequests (an observation about the code, not one of the listed properties)
-QuietBackendsKeepRequests == [][\A r \in Req : (stored[r] /\ ~seen[BackendOf[r]]) => stored'[r]]_avars
+\* the retention step as a reference operator for recorded runs of /cron/delete (one exchange): the request entity
+\* stays iff its backend was seen within the hour and it is younger than two minutes; the response entity goes iff
+\* it looks old (always, while its StartTime is never set); blob parts carry the request's time and go iff old
+CronOK(isOld, backendSeen, hadReq, hadResp, hadParts, reqSurvives, respSurvives, partsSurvive) ==
+  /\ (hadReq => (reqSurvives <=> (backendSeen /\ ~isOld)))
+  /\ (hadResp => (respSurvives <=> ~(isOld \/ ResponseStartTimeUnset)))
+  /\ (hadParts => (partsSurvive <=> ~isOld))
 \* every response call that started finishes
 RespondCompletes == \A r \in Req : (resp[r] = "posting") ~> (resp[r] = "done")
 =============================================================================
